@@ -681,7 +681,10 @@ Qed.
    managed-mode guard, unlike SetEntryAt): the reader's view depends on the cut.
    DeleteAt(k, 11); Set(k, 1): unsplit at 10 the tombstone k@11 shadows k@10=1; split at 10, 11
    the Set is stamped 11 and REPLACES the tombstone.  So `all_ver0` cannot be dropped from
-   batch_split_invariance_normal *)
+   batch_split_invariance_normal.  (Observed on the Go code, non-managed DB: NewWriteBatch;
+   DeleteAt("k", 2); Set f0; Set f1; Set("k", "1"); Flush; three more commits; Get("k"):
+   MemTableSize 64 MiB (no split) => Key not found; MemTableSize 1920 (maxBatchCount 3, the
+   batch is split) => "1".) *)
 Theorem batch_split_mixed_refuted :
   exists g1 t1 g2 t2 k rts,
     concat g1 = concat g2 /\ length g1 = length t1 /\ length g2 = length t2 /\
@@ -696,4 +699,147 @@ Proof.
   - repeat constructor; lia.
   - cbn [app]. intros ts [<-|[<-|[<-|[]]]]; lia.
   - vm_compute. discriminate.
+Qed.
+
+(* ==================================================================================== *)
+(* 5. the bridge to Sys.txn_commit (what the correspondence replays for every batch:     *)
+(*    Begin / Modify* / Commit labels per internal transaction)                          *)
+(* ==================================================================================== *)
+Definition wb_txn (rts : N) : txn := mkTxn rts true [] [] [] false.
+
+Lemma txn_modify_reads x e : x_reads (snd (txn_modify x e)) = x_reads x.
+Proof.
+  unfold txn_modify. destruct (x_update x); cbn [negb]; [|auto].
+  destruct (x_done x); [auto|]. destruct (e_key e) as [|b0 k0]; [auto|].
+  destruct (is_prefix c_badgerPrefix (b0 :: k0)); cbn [snd x_reads]; auto.
+Qed.
+
+Lemma modifies_reads es : forall x, x_reads (modifies x es) = x_reads x.
+Proof. induction es as [|e es IH]; intros x; cbn [modifies]; auto. now rewrite IH, txn_modify_reads. Qed.
+
+Lemma modifies_flags es : forall x,
+  x_update (modifies x es) = x_update x /\ x_done (modifies x es) = x_done x.
+Proof.
+  induction es as [|e es IH]; intros x; cbn [modifies]; auto.
+  destruct (IH (snd (txn_modify x e))) as [A B]. destruct (txn_modify_flags x e) as [C D]. split; congruence.
+Qed.
+
+(* a WriteBatch's transactions read nothing: blind writes never conflict *)
+Lemma no_reads_no_conflict s x : x_reads x = [] -> has_conflict s x = false.
+Proof.
+  intros H. unfold has_conflict. rewrite H. induction (s_committed s) as [|cw l IH]; cbn [existsb] in *; auto.
+  rewrite andb_false_r. exact IH.
+Qed.
+
+Definition dups_need_pend (x : txn) : Prop := x_pend x = [] -> x_dups x = [].
+
+Lemma kupdate_not_nil l k e : kupdate l k e <> [].
+Proof. destruct l as [|[j b] l]; cbn; [discriminate|]. destruct (bytes_eqb j k); discriminate. Qed.
+
+Lemma txn_modify_dnp x e : dups_need_pend x -> dups_need_pend (snd (txn_modify x e)).
+Proof.
+  intros H. unfold dups_need_pend. rewrite txn_modify_pend.
+  destruct (fst (txn_modify x e) =? 0) eqn:C.
+  - intros P. exfalso. exact (kupdate_not_nil _ _ _ P).
+  - rewrite txn_modify_rejected by now rewrite C. exact H.
+Qed.
+
+Lemma modifies_dnp es : forall x, dups_need_pend x -> dups_need_pend (modifies x es).
+Proof. induction es as [|e es IH]; intros x H; cbn [modifies]; auto. apply IH. now apply txn_modify_dnp. Qed.
+
+(* one internal transaction of a batch through Sys.txn_commit: never refused, and the memtable
+   receives exactly `group_entries` at the timestamp the oracle hands out (normal mode:
+   nextTxnTs, which then moves on; managed mode: the batch's commitTs) *)
+Theorem wb_commit_step s t rts g cts :
+  let x := modifies (wb_txn rts) g in
+  let ts := if s_managed s then cts else s_next s in
+  let r := txn_commit s t x cts in
+  fst (fst r) = 0 /\
+  l_mt (s_db (snd r)) = fold_left mt_put (group_entries g ts) (l_mt (s_db s)) /\
+  s_managed (snd r) = s_managed s /\
+  s_next (snd r) = (if s_managed s || (match x_pend x with [] => true | _ => false end)
+                    then s_next s else s_next s + 1).
+Proof.
+  intros x ts r.
+  assert (Hg: forall ts', commit_entries x ts' = group_entries g ts')
+    by (intros ts'; now apply group_entries_any_txn).
+  destruct (modifies_flags g (wb_txn rts)) as [_ Hd]. cbn [wb_txn x_done] in Hd. fold x in Hd.
+  pose proof (modifies_reads g (wb_txn rts)) as Hrd. cbn [wb_txn x_reads] in Hrd. fold x in Hrd.
+  pose proof (modifies_dnp g (wb_txn rts) (fun _ => eq_refl)) as Hdnp. fold x in Hdnp.
+  subst r. unfold txn_commit. destruct (x_pend x) as [|p ps] eqn:P.
+  - cbn [fst snd s_db s_managed s_next]. rewrite <- Hg. unfold commit_entries. rewrite P, (Hdnp P).
+    cbn [map app fold_left]. rewrite orb_true_r. auto.
+  - rewrite Hd, (no_reads_no_conflict s x Hrd), andb_false_r. cbn [fst snd s_db s_managed s_next apply_entries l_mt].
+    rewrite Hg, orb_false_r. destruct (s_managed s); auto.
+Qed.
+
+(* a whole batch as a sequence of commits of the system model *)
+Fixpoint sys_batch (s : sys) (t rts : N) (groups : list (list entry)) (ctss : list N) : sys :=
+  match groups, ctss with
+  | g :: gs, cts :: cr => sys_batch (snd (txn_commit s t (modifies (wb_txn rts) g) cts)) t rts gs cr
+  | _, _ => s
+  end.
+
+(* the commit timestamps it used *)
+Fixpoint sys_batch_tss (s : sys) (t rts : N) (groups : list (list entry)) (ctss : list N) : list N :=
+  match groups, ctss with
+  | g :: gs, cts :: cr =>
+      (if s_managed s then cts else s_next s)
+      :: sys_batch_tss (snd (txn_commit s t (modifies (wb_txn rts) g) cts)) t rts gs cr
+  | _, _ => []
+  end.
+
+Theorem sys_batch_memtable groups : forall s t rts ctss,
+  l_mt (s_db (sys_batch s t rts groups ctss)) =
+  run_batch groups (sys_batch_tss s t rts groups ctss) (l_mt (s_db s)).
+Proof.
+  induction groups as [|g gs IH]; intros s t rts [|cts cr]; cbn [sys_batch sys_batch_tss run_batch]; auto.
+  rewrite IH. destruct (wb_commit_step s t rts g cts) as (_ & H & _). cbv zeta in H. now rewrite H.
+Qed.
+
+Theorem sys_batch_tss_managed groups : forall s t rts ctss,
+  s_managed s = true -> length groups = length ctss -> sys_batch_tss s t rts groups ctss = ctss.
+Proof.
+  induction groups as [|g gs IH]; intros s t rts [|cts cr] Hm Hl; cbn [sys_batch_tss]; try discriminate; auto.
+  cbn [length] in Hl. destruct (wb_commit_step s t rts g cts) as (_ & _ & H & _). cbv zeta in H.
+  rewrite Hm, IH; auto. congruence.
+Qed.
+
+Fixpoint count_from (n : N) (len : nat) : list N :=
+  match len with O => [] | S l => n :: count_from (n + 1) l end.
+
+Lemma count_from_ge n len : forall t, In t (count_from n len) -> n <= t.
+Proof.
+  revert n. induction len as [|l IH]; intros n t; cbn [count_from]; [intros []|].
+  intros [<-|H]; [lia|]. specialize (IH _ _ H). lia.
+Qed.
+
+Lemma count_from_increasing n len : increasing (count_from n len).
+Proof.
+  revert n. induction len as [|l IH]; intros n; cbn [count_from]; constructor; [apply IH|].
+  apply Forall_forall. intros t Ht. apply count_from_ge in Ht. lia.
+Qed.
+
+(* normal mode, every group holding at least one accepted call: the timestamps are
+   nextTxnTs, nextTxnTs + 1, ... — strictly increasing, as assumed in section 3 *)
+Theorem sys_batch_tss_normal groups : forall s t rts ctss,
+  s_managed s = false -> length groups = length ctss ->
+  (forall g, In g groups -> x_pend (modifies (wb_txn rts) g) <> []) ->
+  sys_batch_tss s t rts groups ctss = count_from (s_next s) (length groups).
+Proof.
+  induction groups as [|g gs IH]; intros s t rts [|cts cr] Hm Hl Hne; cbn [sys_batch_tss count_from length];
+    try discriminate; auto.
+  cbn [length] in Hl. destruct (wb_commit_step s t rts g cts) as (_ & _ & H1 & H2). cbv zeta in H1, H2.
+  rewrite Hm. f_equal. rewrite IH; auto; [|congruence|intros g' Hg'; apply Hne; now right].
+  rewrite H2, Hm. destruct (x_pend (modifies (wb_txn rts) g)) eqn:P; [|reflexivity].
+  exfalso. apply (Hne g); [now left|exact P].
+Qed.
+
+Corollary sys_batch_tss_normal_increasing groups s t rts ctss :
+  s_managed s = false -> length groups = length ctss ->
+  (forall g, In g groups -> x_pend (modifies (wb_txn rts) g) <> []) ->
+  sys_batch_tss s t rts groups ctss = count_from (s_next s) (length groups) /\
+  increasing (count_from (s_next s) (length groups)).
+Proof.
+  intros Hm Hl Hne. split; [now apply sys_batch_tss_normal|apply count_from_increasing].
 Qed.
